@@ -2,5 +2,9 @@ PROP = {
     "level": "exploration",
     "stages": [
         {"name": "main"},
+        # cheap insurance only (safe cursor arithmetic; zlib-rs inflate/crc32 under seek and direct-decode call
+        # patterns): ~30 tiny histories run in-process under Miri. Optional: if Miri cannot run, the behavioural
+        # verdict of `main` stands alone.
+        {"name": "miri", "variant": "miri", "tiers": ("thorough",), "optional": True, "timeout": 2400},
     ],
 }
